@@ -73,12 +73,18 @@ std::string StaticVariableManager::get_impl_static_namespace() const {
 
 void StaticVariableManager::enter_impl_context(
     const std::string &interface_name, const std::string &struct_type_name) {
+    saved_impl_contexts_.push_back(current_impl_context_);
     current_impl_context_.interface_name = interface_name;
     current_impl_context_.struct_type_name = struct_type_name;
     current_impl_context_.is_active = true;
 }
 
 void StaticVariableManager::exit_impl_context() {
+    if (!saved_impl_contexts_.empty()) {
+        current_impl_context_ = saved_impl_contexts_.back();
+        saved_impl_contexts_.pop_back();
+        return;
+    }
     current_impl_context_.is_active = false;
     current_impl_context_.interface_name = "";
     current_impl_context_.struct_type_name = "";
